@@ -36,6 +36,8 @@ pub fn contract<T, E>(r: &chumsky::ParseResult<T, E>) {
 
 pub mod gen;
 pub mod hand;
+#[cfg(kani)]
+pub mod probe;
 
 pub fn registry() -> Vec<(&'static str, Body)> {
     let mut v = Vec::new();
